@@ -8,7 +8,7 @@ for id in "$@"; do
   ( cd "$wt" && git apply "$d/patch.diff" ) || { echo "$id: patch does not apply"; git -C /repo worktree remove --force "$wt"; continue; }
   ok=1
   for k in 1 2 3; do
-    ( cd "$wt" && go test -vet=off -count=1 -timeout 25m ./internal/... > "$d/suite_with_rerun$k.log" 2>&1 ) && { ok=0; break; }
+    ( cd "$wt" && go test -vet=off -count=1 -timeout 8m ./internal/... > "$d/suite_with_rerun$k.log" 2>&1 ) && { ok=0; break; }
   done
   git -C /repo worktree remove --force "$wt"
   python3 - "$d" $ok $k <<'PY'
